@@ -3,6 +3,8 @@
 import json, os, subprocess
 ROOT = os.path.dirname(os.path.dirname(os.path.abspath(__file__)))
 
+COMMON = 'Trusted: TLC, the recording wrapper (hook H1) and driver, the prober (materialises every I/O prefix and starts the real NewSamehadaDB on it). Crash points are I/O-call boundaries plus torn variants of one log write; single driver goroutine. Trace validation against CrashModel (no separate design-level WAL model yet).'
+
 CLAIMED = {
  "C16": dict(
     category="model_checking",
@@ -76,6 +78,27 @@ CLAIMED = {
     design_ref="DESIGN.md section 5 C17",
     note="Sequential clause only so far: the concurrent clause (atomicity of completed operations under concurrent use) is not yet decided by this check. One open known finding (unique skip list over integer keys).",
     technique="TLA+ contract spec as oracle; TLC trace validation of recorded index-container operation sequences"),
+
+ "C01": dict(
+    category="model_checking",
+    text="CrashModel is the oracle (Acceptable = committed table + any subset of the committing transactions). Seeded workloads of multi-statement transactions (small and 300-900-byte rows so that heaps grow, in-place / growing / shrinking / relocating updates, deletes, explicit aborts, conflict aborts between interleaved transactions, forced checkpoints) run on file-backed databases at pools of 16/24/32/128 frames under the recording disk wrapper; for EVERY prefix of the I/O list after the DDL the crash image is materialised, the real NewSamehadaDB restarted on it, the table read back and a new statement tried, plus torn variants of the next log write; TLC validates the annotated trace: restart succeeded, every returned commit is reflected, new statements are accepted.",
+    design_ref="DESIGN.md section 5 C01", note=COMMON,
+    technique="TLA+ contract spec as oracle; exhaustive crash-point enumeration per recorded workload (restart of the real engine on every I/O prefix) judged by TLC trace validation"),
+ "C02": dict(
+    category="model_checking",
+    text="Same pipeline as C01; TLC checks on every crash image (and torn variant) that no recovered row was written by a transaction that was neither committed nor committing at that point (active, aborted, aborting), and that a committing transaction is entirely present or entirely absent. Workloads interleave two transactions on the same pages and slots, abort explicitly and by conflict, reuse slots after aborts, and push uncommitted changes to disk through small pools and checkpoints.",
+    design_ref="DESIGN.md section 5 C02", note=COMMON,
+    technique="TLA+ contract spec as oracle; crash-point enumeration with restart of the real engine, judged by TLC trace validation"),
+ "C08": dict(
+    category="model_checking",
+    text="Every I/O call of the recorded workloads is an event of the CrashModel trace: a user-table page write must carry a page LSN that an earlier WriteLog made durable, a writing transaction's commit may return only after its COMMIT record was handed to WriteLog, and every WriteLog payload must parse (own strict parser) into complete records with increasing LSNs per transaction and an intact prevLSN chain; TLC evaluates these on every page write, log write and commit return of every workload (pools of 16-128 frames, forced checkpoints, evictions).",
+    design_ref="DESIGN.md section 5 C08", note=COMMON + " Heap pages are identified from NewTablePage records and the table's first page; index pages reuse the LSN field as an update counter and are excluded. Concurrent (multi-goroutine) executions are not yet covered.",
+    technique="TLA+ trace validation of the recorded page-write / log-write / commit-return order against the write-ahead rules"),
+ "C20": dict(
+    category="model_checking",
+    text="For the crash images of the C01 workloads the recovery run itself is recorded through the same disk wrapper and crashed again after each of its own I/O calls (including 'recovery repeated from the same image'); every nested image is restarted and read back (thorough: nesting depth 2); TLC requires each nested observation to lie in the Acceptable set frozen at the first crash: nothing committed is lost, nothing uncommitted appears, restart succeeds and accepts statements.",
+    design_ref="DESIGN.md section 5 C20", note=COMMON,
+    technique="TLA+ contract spec as oracle; nested crash-point enumeration inside the recovery run, judged by TLC trace validation"),
 }
 
 NOT_APPLICABLE = {
